@@ -722,4 +722,187 @@ theorem gs_bgv_square_run_eq (l : Level) (d : List Nat) (s cf : Nat) (ntt : Bool
       rw [gs_bgv_multiply_eq l d d s s cf cf hd hd h1 h1 hk (by rw [show s + s - 1 = 2 * s - 1 by omega]; exact hB) (by omega) hsB,
         bgvSquare_fallback l _ rfl (by rw [gc_polys_size]; exact hs), show s + s - 1 = 2 * s - 1 by omega]
 
+/-! ### `ckks_multiply`: the same data loops, then the scale bookkeeping -/
+
+theorem gs_ckks_loop2_eq (A B : List Nat) (n : Nat) (mods : List Modulus) (i f2 f1 st D : Nat) : ∀ cnt j t p,
+    GenC.ct_ckks_multiply_loop2 A B n mods i f2 f1 st D cnt j t p = GenC.ct_bgv_multiply_loop2 A B n mods i f2 f1 st D cnt j t p := by
+  intro cnt
+  induction cnt with
+  | zero => intro j t p; rfl
+  | succ c ih =>
+    intro j t p
+    rw [GenC.ct_ckks_multiply_loop2, GenC.ct_bgv_multiply_loop2]
+    simp only [ih]
+
+/-- the outer loop of `ckks_multiply`, the copy over the whole buffer and the scale bookkeeping (one product recorded, verdict `okProd`) -/
+theorem gs_ckks_mul_outer (l : Level) (A B : List Nat) (s1 s2 v1 : Nat) (okOwn okProd : Bool) (h1 : 1 ≤ s1) (h2 : 1 ≤ s2) (hk : 1 ≤ l.size)
+    (hA : A.length = (s1 + s2 - 1) * (l.size * l.n)) (hB : s2 * (l.size * l.n) ≤ B.length)
+    (hAB : A.length < B64) (hBB : B.length < B64) (hsB : s1 + s2 < B64) :
+    ∀ cnt i (done : List RnsPoly), done.length = i → i + cnt = s1 + s2 - 1 →
+    GenC.ct_ckks_multiply_loop1 A B okOwn okProd v1 0 l.n l.qs.toList l.size s1 s2 (s1 + s2 - 1) cnt i
+        (gs_flat l done ++ List.replicate (cnt * (l.size * l.n)) 0) = (do
+      let rest ← (List.range' i cnt).mapM (fun i => (mulPairs s1 s2 i).foldlM (gs_mulStep l A B) (rnsZero l))
+      if okProd = true then pure (gs_flat l (done ++ rest), v1, 1) else .error .refused) := by
+  have hlen : l.qs.toList.length = l.size := by simp [Level.size]
+  have hPD : l.n * l.size = l.size * l.n := Nat.mul_comm _ _
+  have hs1A : s1 * (l.size * l.n) ≤ A.length := by rw [hA]; exact Nat.mul_le_mul_right _ (by omega)
+  intro cnt
+  induction cnt with
+  | zero =>
+    intro i done hdone hi
+    rw [GenC.ct_ckks_multiply_loop1]
+    have hV : (gs_flat l done).length = A.length := by
+      rw [gs_flat_length, hdone, hA, ← hi]; simp
+    simp only [Nat.zero_mul, List.replicate_zero, List.append_nil, gt_slice_drop A 0 _ rfl (by omega), gy_ok_bind,
+      gs_copy_whole A _ _ rfl hV, gs_ckAdd 0 1 (by simp [B64]), List.range'_zero, List.mapM_nil]
+    cases okProd <;> simp [pure, Except.pure, gy_ok_bind]
+  | succ c ih =>
+    intro i done hdone hi
+    have hD0 : 0 < s1 + s2 - 1 := by omega
+    have hDle : l.size * l.n ≤ A.length := by rw [hA]; exact Nat.le_mul_of_pos_left _ hD0
+    rw [GenC.ct_ckks_multiply_loop1]
+    have e1 : ckSub s1 1 = .ok (s1 - 1) := by unfold ckSub; rw [if_pos (by omega)]
+    have e2 : ckSub s2 1 = .ok (s2 - 1) := by unfold ckSub; rw [if_pos (by omega)]
+    have e3 : ckSub i (min i (s2 - 1)) = .ok (i - min i (s2 - 1)) := by unfold ckSub; rw [if_pos (by omega)]
+    have e4 : ckSub (min i (s1 - 1)) (i - min i (s2 - 1)) = .ok (min i (s1 - 1) - (i - min i (s2 - 1))) := by
+      unfold ckSub; rw [if_pos (by omega)]
+    have e5 : ckAdd (min i (s1 - 1) - (i - min i (s2 - 1))) 1 = .ok (min i (s1 - 1) - (i - min i (s2 - 1)) + 1) := gs_ckAdd _ _ (by omega)
+    have e6 : ckMul l.n l.size = .ok (l.size * l.n) := by rw [gs_ckMul _ _ (by rw [hPD]; omega), hPD]
+    simp only [e1, e2, e3, e4, e5, e6, gy_ok_bind]
+    -- the buffer: finished polynomials, the zero block of polynomial i, the remaining zeros
+    have hsplit : gs_flat l done ++ List.replicate ((c + 1) * (l.size * l.n)) 0 =
+        gs_flat l done ++ flattenRns l.size l.n (rnsZero l) ++ List.replicate (c * (l.size * l.n)) 0 := by
+      rw [gs_flatten_zero, List.append_assoc, List.replicate_append_replicate, Nat.succ_mul, Nat.add_comm]
+    rw [hsplit]
+    have hin := gs_mul_inner l A B (gs_flat l done) (List.replicate (c * (l.size * l.n)) 0) i (i - min i (s2 - 1)) (min i (s2 - 1)) s1 s2
+      (min i (s1 - 1) - (i - min i (s2 - 1)) + 1) (by rw [gs_flat_length, hdone]) hs1A hB hAB hBB (by omega) (by omega)
+      (by
+        have : (i + (c + 1)) * (l.size * l.n) = A.length := by rw [hi, hA]
+        rw [gs_flat_length, hdone, List.length_replicate]
+        have e : (i + (c + 1)) * (l.size * l.n) = i * (l.size * l.n) + l.size * l.n + c * (l.size * l.n) := by
+          rw [Nat.add_mul, Nat.succ_mul]; omega
+        omega)
+      (min i (s1 - 1) - (i - min i (s2 - 1)) + 1) 0 (rnsZero l) (List.replicate (l.size * l.n) 0) (gs_zero_shape l) (by simp)
+      (by omega) (by omega)
+    rw [← gs_mulPairs_range'] at hin
+    simp only [List.range'_succ, List.mapM_cons, gs_ckks_loop2_eq]
+    cases hL : GenC.ct_bgv_multiply_loop2 A B l.n l.qs.toList i (min i (s2 - 1)) (i - min i (s2 - 1))
+        (min i (s1 - 1) - (i - min i (s2 - 1)) + 1) (l.size * l.n) (min i (s1 - 1) - (i - min i (s2 - 1)) + 1) 0
+        (gs_flat l done ++ flattenRns l.size l.n (rnsZero l) ++ List.replicate (c * (l.size * l.n)) 0)
+        (List.replicate (l.size * l.n) 0) with
+    | error e =>
+      rw [hL] at hin
+      cases hf : (mulPairs s1 s2 i).foldlM (gs_mulStep l A B) (rnsZero l) with
+      | error e' => rw [hf] at hin; cases hin; rfl
+      | ok r => rw [hf] at hin; cases hin
+    | ok pr =>
+      rw [hL] at hin
+      cases hf : (mulPairs s1 s2 i).foldlM (gs_mulStep l A B) (rnsZero l) with
+      | error e' => rw [hf] at hin; cases hin
+      | ok r =>
+        rw [hf] at hin
+        have hpr : pr.1 = gs_flat l done ++ flattenRns l.size l.n r ++ List.replicate (c * (l.size * l.n)) 0 := Except.ok.inj hin
+        obtain ⟨v8', prod'⟩ := pr
+        simp only at hpr
+        subst hpr
+        simp only [gy_ok_bind]
+        rw [← gs_flat_snoc, ih (i + 1) (done ++ [r]) (by simp [hdone]) (by omega)]
+        cases (List.range' (i + 1) c).mapM (fun i => (mulPairs s1 s2 i).foldlM (gs_mulStep l A B) (rnsZero l)) with
+        | error e => rfl
+        | ok rest => cases okProd <;> simp [gy_ok_bind, List.append_assoc]
+
+
+
+
+/-- GENERATED = MODEL (`ckks_multiply`, data loops + bookkeeping): NTT-form operands of ANY sizes s1, s2 ≥ 1: the flattened `ctMultiplyDyadic` of the
+    model, THEN the bookkeeping of a ciphertext product (`ckksProductBookkeeping`: size s1 + s2 − 1, one product recorded, verdict `okProd`) -/
+theorem gs_ckks_multiply_eq (l : Level) (d1 d2 : List Nat) (s1 s2 cf1 cf2 : Nat) (okOwn okProd o3 o4 : Bool)
+    (hd1 : d1.length = s1 * (l.size * l.n)) (hd2 : d2.length = s2 * (l.size * l.n)) (h1 : 1 ≤ s1) (h2 : 1 ≤ s2) (hk : 1 ≤ l.size)
+    (hB : (s1 + s2 - 1) * (l.size * l.n) < B64) (hB2 : d2.length < B64) (hsB : s1 + s2 < B64) :
+    GenC.ct_ckks_multiply d1 s1 d2 s2 true true l.qs.toList l.n okOwn okProd o3 o4 = (do
+      let c ← ctMultiplyDyadic l (unflattenCt l s1 d1 true cf1) (unflattenCt l s2 d2 true cf2)
+      let b ← ckksProductBookkeeping true true s1 s2 okProd
+      pure (flattenCt l c, b.1, b.2)) := by
+  have hlen : l.qs.toList.length = l.size := by simp [Level.size]
+  have hPD : l.n * l.size = l.size * l.n := Nat.mul_comm _ _
+  have hn : l.n ≤ l.size * l.n := Nat.le_mul_of_pos_left _ hk
+  unfold GenC.ct_ckks_multiply ctMultiplyDyadic ckksProductBookkeeping
+  have hntt1 : (unflattenCt l s1 d1 true cf1).ntt = true := rfl
+  have hntt2 : (unflattenCt l s2 d2 true cf2).ntt = true := rfl
+  simp only [hlen, hntt1, hntt2, gc_polys_size, not_true_eq_false, or_self, if_false, Bool.not_true, Bool.false_eq_true,
+    gs_ckAdd s1 s2 hsB, gy_ok_bind, show ckSub (s1 + s2) 1 = .ok (s1 + s2 - 1) from (by unfold ckSub; rw [if_pos (by omega)]),
+    Bool.true_eq_false]
+  rw [if_neg (show ¬(s1 < 1 ∨ s2 < 1) by omega)]
+  by_cases hrz : ctResizeRefuses (s1 + s2 - 1) = true
+  · have hr := (ctResizeRefuses_eq_true_iff _).mp hrz
+    rw [if_pos hrz, if_neg (show ¬¬((s1 + s2 - 1 < 2 ∧ s1 + s2 - 1 ≠ 0) ∨ s1 + s2 - 1 > 16) by omega)]
+    rfl
+  · have hr := (ctResizeRefuses_eq_false_iff _).mp (by simpa using hrz)
+    rw [if_neg hrz, if_neg hrz, if_pos (show ¬((s1 + s2 - 1 < 2 ∧ s1 + s2 - 1 ≠ 0) ∨ s1 + s2 - 1 > 16) by omega)]
+    have hmul : (s1 + s2 - 1) * l.n * l.size = (s1 + s2 - 1) * (l.size * l.n) := by rw [Nat.mul_assoc, hPD]
+    have hdn : (s1 + s2 - 1) * l.n < B64 := by
+      have : (s1 + s2 - 1) * l.n ≤ (s1 + s2 - 1) * (l.size * l.n) := Nat.mul_le_mul_left _ hn
+      omega
+    simp only [gs_ckMul (s1 + s2 - 1) l.n hdn, gs_ckMul ((s1 + s2 - 1) * l.n) l.size (by rw [hmul]; exact hB), gy_ok_bind, hmul]
+    have hle : d1.length ≤ (s1 + s2 - 1) * (l.size * l.n) := by rw [hd1]; exact Nat.mul_le_mul_right _ (by omega)
+    rw [gt_resizeL_grow _ _ hle]
+    generalize hZ : List.replicate ((s1 + s2 - 1) * (l.size * l.n) - d1.length) 0 = Z
+    have hA : (d1 ++ Z).length = (s1 + s2 - 1) * (l.size * l.n) := by rw [List.length_append, ← hZ, List.length_replicate]; omega
+    have hout := gs_ckks_mul_outer l (d1 ++ Z) d2 s1 s2 (s1 + s2 - 1) okOwn okProd h1 h2 hk hA (by rw [hd2]) (by rw [hA]; exact hB) hB2 hsB
+      (s1 + s2 - 1) 0 [] rfl (by omega)
+    simp only [gs_flat, List.map_nil, List.flatten_nil, List.nil_append] at hout
+    rw [hout, ← List.range_eq_range']
+    rw [gp_mapM_congr' (fun i => (mulPairs s1 s2 i).foldlM (gs_mulStep l (d1 ++ Z) d2) (rnsZero l))
+      (fun i => (mulPairs s1 s2 i).foldlM (fun acc p => do
+        let pr ← rnsDyadic l ((unflattenCt l s1 d1 true cf1).polys.getD p.1 #[]) ((unflattenCt l s2 d2 true cf2).polys.getD p.2 #[])
+        rnsAdd l acc pr) (rnsZero l)) _ (fun i hi => by
+      have hi := List.mem_range.mp hi
+      obtain ⟨_, hmem⟩ := mulPairs_spec h1 h2 hi
+      apply gs_foldlM_congr
+      intro p hp acc
+      obtain ⟨hp1, hp2, _⟩ := (hmem p.1 p.2).mp hp
+      have hb1 : p.1 * (l.size * l.n) + l.size * l.n ≤ d1.length := by rw [hd1]; exact gp_blk_bound hp1
+      unfold gs_mulStep
+      rw [gc_polys_getD l s1 d1 true cf1 p.1 hp1, gc_polys_getD l s2 d2 true cf2 p.2 hp2, gt_blk_app _ _ _ _ hb1])]
+    cases (List.range (s1 + s2 - 1)).mapM (fun i => (mulPairs s1 s2 i).foldlM (fun acc p => do
+        let pr ← rnsDyadic l ((unflattenCt l s1 d1 true cf1).polys.getD p.1 #[]) ((unflattenCt l s2 d2 true cf2).polys.getD p.2 #[])
+        rnsAdd l acc pr) (rnsZero l)) with
+    | error e => rfl
+    | ok ps => cases okProd <;> simp [gy_ok_bind, pure, Except.pure, flattenCt, bind, Except.bind]
+
+/-- `ckks_square` as the code runs it: the generated dispatch / fast path, on route 1 the generated `ckks_multiply` on the ciphertext and its clone -/
+def gs_ckks_square_run (d : List Nat) (size : Nat) (ntt : Bool) (mods : List Modulus) (n : Nat) (o1 o2 o3 o4 : Bool) : R (List Nat × Nat × Nat) := do
+  let r ← GenC.ct_ckks_square d size ntt mods n o1 o2 o3 o4
+  if r.2.2.2 = 1 then GenC.ct_ckks_multiply r.1 r.2.1 r.1 r.2.1 ntt ntt mods n o1 o2 o3 o4
+  else pure (r.1, r.2.1, r.2.2.1)
+
+/-- GENERATED = MODEL (`ckks_square`, EVERY size ≥ 1, both representations): the flattened `ckksSquare`, then the product bookkeeping -/
+theorem gs_ckks_square_run_eq (l : Level) (d : List Nat) (s cf : Nat) (ntt okOwn okProd o3 o4 : Bool) (hd : d.length = s * (l.size * l.n))
+    (h1 : 1 ≤ s) (hk : 1 ≤ l.size) (hB : (2 * s - 1) * (l.size * l.n) < B64) (hsB : s + s < B64) :
+    gs_ckks_square_run d s ntt l.qs.toList l.n okOwn okProd o3 o4 = (do
+      let c ← ckksSquare l (unflattenCt l s d ntt cf)
+      let b ← ckksProductBookkeeping true true s s okProd
+      pure (flattenCt l c, b.1, b.2)) := by
+  unfold gs_ckks_square_run
+  rw [gs_ckks_square_dispatch]
+  cases ntt
+  · rw [if_pos rfl, ckksSquare_refuse l _ rfl]; rfl
+  · rw [if_neg (by simp)]
+    by_cases hs : s = 2
+    · subst hs
+      rw [if_neg (by simp), gs_ckks_square_eq l d cf okOwn okProd o3 o4 hd hk (by omega)]
+      cases ckksSquare l (unflattenCt l 2 d true cf) with
+      | error e => rfl
+      | ok c =>
+        simp only [gy_ok_bind]
+        cases ckksProductBookkeeping true true 2 2 okProd with
+        | error e => rfl
+        | ok b => rfl
+    · rw [if_pos hs]
+      simp only [gy_ok_bind, if_true]
+      rw [gs_ckks_multiply_eq l d d s s cf cf okOwn okProd o3 o4 hd hd h1 h1 hk (by rw [show s + s - 1 = 2 * s - 1 by omega]; exact hB)
+        (by have : s * (l.size * l.n) ≤ (2 * s - 1) * (l.size * l.n) := Nat.mul_le_mul_right _ (by omega)
+            omega) hsB,
+        ckksSquare_fallback l _ rfl (by rw [gc_polys_size]; exact hs)]
+
 end HC
